@@ -12,12 +12,23 @@ REQUESTS_NEED_IMPL = True
 THEOREMS = ["C05_order_free", "C05_sorted", "C05_decode", "C05_record_determines_branch", "C05_injective",
             "C05_unresolved_exact", "C05_raise_iff", "C05_raise_carries_list", "C05_id_ignores",
             "C05_ok_same_manifest", "C05_target_types_table", "C05_satisfiable"]
-RULE = ("branch maps of 0-30 branches; prefix-chain names over an adversarial alphabet; all six target kinds + "
-        "dangling; alias targets: existing / missing / self / chains / 0-300 arbitrary bytes incl. NUL, ':' and digits; "
-        "each map in two insertion orders; both ignore_unresolved values; constructor and from_dict; after every construction "
-        "the branch map is also given as defaultdict / __missing__ subclass / OrderedDict / copy()-overriding subclass / "
-        "ImmutableDict (same id, same unresolved report, nothing inserted by formatting); the caller's own dict is mutated (branch added, removed, set to None) and id / compute_hash / manifest re-read; invalid "
-        "branches (non-alias target not 20 bytes) included; non-trivial = >=2 branches incl. an alias or a dangling one")
+RULE = ("branch maps of 0-30 branches (+ hand-built corners: alias to a dangling branch, chains, 2-cycles, the empty name, "
+        "targets that look like manifest text, body lengths 99/100/999/1000, one map of 300 branches; 1000 in the thorough tier); "
+        "prefix-chain names over an adversarial alphabet; all six target kinds + "
+        "dangling; alias targets: existing / missing / self / chains / 0-1000 arbitrary bytes incl. NUL, ':' and digits; "
+        "each map in two insertion orders; ignore_unresolved True / False / left at its default, on the Snapshot and on the deprecated "
+        "dict form (same dict object used several times and compared afterwards, OrderedDict, dict without 'id', dict with a stale id); "
+        "constructor, from_dict (twice on one dict), evolve(branches=...), a second snapshot from the caller's working dict; "
+        "a GIVEN id (own / constant / id of the previous case, each first seen on another object): compute_hash, formatting, check(); "
+        "after every construction the branch map is also given as defaultdict / __missing__ subclass / OrderedDict / copy()-overriding "
+        "subclass / ImmutableDict of a dict, of a list of pairs, of a one-shot iterator, of an ImmutableDict / dict keyed by a bytes "
+        "subclass / mappingproxy (same id, same unresolved report, nothing inserted by formatting) and the caller then goes on "
+        "changing the object it gave; the caller's own dict is mutated (branch added, removed, set to None) and id / compute_hash / "
+        "manifest re-read; the dict returned by to_dict() is mutated; branches.copy_pop (present / absent key) and dict() views; "
+        "a target / name / target type equal to a valid one but of another type (bytearray changed afterwards, bytes subclass, "
+        "memoryview, str, enum value as str, release enum): refused, or the snapshot of the plain values; invalid "
+        "branches (non-alias target not 20 bytes) included; the wide steps run on every case of the thorough tier and on a third "
+        "of the quick tier's (maps of at most 13 branches); non-trivial = >=2 branches incl. an alias or a dangling one")
 TRUSTED = ["Python sorted() on (name, branch) tuples with distinct names = byte order of names; '%d' formatting; dict semantics",
            "lib/Sha1.v as an instance of the hash oracle (validated against hashlib on every case)"]
 ASSUMPTIONS = ["branch names contain no NUL byte for the decode/injectivity theorems (the property's domain)"]
@@ -79,6 +90,9 @@ def gen(rng, tier):
         perm = list(range(len(b)))
         rng.shuffle(perm)
         cases.append({"branches": b, "perm": perm, "ignore": rng.random() < 0.5})
+        if tier == "quick" and (k % 3 or n > 13):
+            cases[-1]["wide"] = False
+    cases += corner_cases(rng, tier)
     if tier == "thorough":
         names = [b"a", b"ab", b"a/", b"b"]
         tgts = [None] + [(k, (bytes([i + 1]) * 20).hex()) for i, k in enumerate(KINDS[:5])] + \
@@ -89,6 +103,45 @@ def gen(rng, tier):
                     b = [[nm.hex(), None if a is None else a[0], None if a is None else a[1]] for nm, a in zip(combo, assign)]
                     cases.append({"branches": b, "perm": list(reversed(range(r))), "ignore": False})
     return cases
+
+
+def corner_cases(rng, tier):
+    """hand-built maps at the boundaries the random generator reaches only by luck"""
+    rev = lambda i: ["revision", (bytes([i % 251 + 1]) * 20).hex()]
+    hx_ = lambda x: x.hex()
+    maps = [
+        [[hx_(b"HEAD"), "alias", hx_(b"refs/heads/main")], [hx_(b"refs/heads/main"), None, None]],          # alias to an existing dangling branch
+        [[hx_(b"a"), "alias", hx_(b"b")], [hx_(b"b"), "alias", hx_(b"c")], [hx_(b"c"), "alias", hx_(b"d")]],  # chain ending on a missing branch
+        [[hx_(b"a"), "alias", hx_(b"b")], [hx_(b"b"), "alias", hx_(b"a")]],                                   # 2-cycle: both resolved
+        [[hx_(b""), "alias", hx_(b"")]],                                                                      # the empty name aliasing itself
+        [[hx_(b"x"), "alias", hx_(b"")]],                                                                     # alias to the (missing) empty name
+        [[hx_(b"x"), "alias", hx_(b"")], [hx_(b""), None, None]],                                             # ... present and dangling
+        [[hx_(b"x"), "alias", hx_(b"")], [hx_(b""), "content", (b"\x00" * 20).hex()]],                       # ... present, all-zero id
+        [[hx_(b"dangling"), "alias", hx_(b"alias")], [hx_(b"alias"), None, None], [hx_(b"snapshot 0"), "snapshot", (b"0" * 20).hex()]],
+        [[hx_(b"a"), "alias", hx_(b"20:" + b"\x01" * 20 + b"dangling b\x000:")]],                            # a target that looks like the rest of a manifest
+    ]
+    # body length just below / at a new digit of the header: "dangling " + name + NUL + "0:" = len(name) + 12
+    for ln in (87, 88, 987, 988) + ((9987, 9988) if tier == "thorough" else ()):
+        maps.append([[(b"n" * ln).hex(), None, None]])
+    maps.append([[hx_(b"t"), "alias", (b"\x00:7" * 333 + b":")[:n].hex()] for n in (999,)])
+    maps.append([[hx_(b"t"), "alias", (b"\x00:7" * 334)[:1000].hex()]])
+    big = 300 if tier == "quick" else 1000
+    m = []
+    for i in range(big):
+        nm = b"refs/heads/%d" % i if i % 3 else b"refs/tags/%d\xff" % i
+        m.append([nm.hex()] + (rev(i) if i % 5 else [None, None] if i % 2 else ["alias", (b"refs/heads/%d" % (i + (7 if i % 4 else big))).hex()]))
+    rng.shuffle(m)
+    maps.append(m)
+    out = []
+    for m in maps:
+        perm = list(range(len(m)))
+        rng.shuffle(perm)
+        for ig in (False, True):
+            out.append({"branches": m, "perm": perm, "ignore": ig})
+        if len(m) > 100:
+            out[-1]["wide"] = out[-2]["wide"] = False
+            out.pop()
+    return out
 
 
 def nontrivial(c):
@@ -106,10 +159,23 @@ def classify(c):
         elif k == "alias":
             tg = bytes.fromhex(t)
             ks.append("alias-self" if tg == bytes.fromhex(n) else "alias-resolved" if tg in names else "alias-missing")
+            if tg in names and tg != bytes.fromhex(n):
+                to = [x for x in b if x[0] == t][0]
+                ks.append("alias-to-dangling" if to[1] is None else "alias-to-alias" if to[1] == "alias" else "alias-to-object")
+            if not tg:
+                ks.append("alias-target-empty")
+            if len(tg) >= 100:
+                ks.append("alias-target>=100B")
+        if not n:
+            ks.append("empty-name")
         if b"\x00" in bytes.fromhex(n):
             ks.append("nul-in-name")
     if c["ignore"]:
         ks.append("ignore_unresolved")
+    if c.get("wide", True):
+        ks.append("wide-steps")
+    if sum(1 for nn, k, t in b if k == "alias" and (bytes.fromhex(t) not in names or t == nn)) >= 2:
+        ks.append(">=2-unresolved")
     return sorted(set(ks))
 
 
@@ -123,7 +189,7 @@ def _build(branches, keep=None):
     return Snapshot(branches=d)
 
 
-_LAST_ID = [b"\x02" * 20]
+_LAST_ID = [b"\x02" * 20, b"\x03" * 20]
 
 
 def impl(c):
@@ -178,11 +244,22 @@ def impl(c):
         class _CopySelf(dict):
             def copy(self):
                 return self
-        plain = kept_plain = dict(_build(c["branches"]).branches.items())
+        import types
+        plain = dict(_build(c["branches"]).branches.items())
+        under = [dict(plain), list(plain.items()), dict(plain)]
+        # name -> (what is given as `branches`, the caller's own mutable object behind it or None)
         shapes = {"defaultdict": collections.defaultdict(lambda: None, plain), "missing": _Missing(plain),
-                  "ordered": collections.OrderedDict(plain), "copyself": _CopySelf(plain), "idict": ImmutableDict(plain)}
+                  "ordered": collections.OrderedDict(plain), "copyself": _CopySelf(plain)}
+        shapes = {k: (v, v) for k, v in shapes.items()}
+        shapes["idict"] = (ImmutableDict(under[0]), under[0])
+        if c.get("wide", True):
+            shapes.update({"pairs_list": (ImmutableDict(under[1]), under[1]),
+                           "pairs_iter": (ImmutableDict(iter(list(plain.items()))), None),
+                           "idict_of_idict": (ImmutableDict(ImmutableDict(plain)), None),
+                           "keys_of_a_bytes_subclass": ({_B(k): v for k, v in plain.items()}, None),
+                           "mappingproxy": (types.MappingProxyType(under[2]), under[2])})
         facts = []
-        for nm, arg in shapes.items():
+        for nm, (arg, mine) in shapes.items():
             try:
                 s2 = Snapshot(branches=arg)
                 f = [s2.id.hex(), s2.compute_hash().hex(), len(s2.branches)]
@@ -191,6 +268,15 @@ def impl(c):
                 except ValueError as e:
                     f.append("unresolved:" + repr(sorted((a.hex(), b.hex()) for a, b in e.args[1])))
                 f.append(len(s2.branches))
+                # ... and the caller goes on using the object it gave
+                if isinstance(mine, list):
+                    mine.append((b"refs/heads/added-later", None))
+                    del mine[0]
+                elif mine is not None:
+                    mine[b"refs/heads/added-later"] = None
+                    if len(mine) > 1:
+                        del mine[next(iter(mine))]
+                f += [s2.id.hex(), s2.compute_hash().hex(), len(s2.branches)]
             except Exception as e:
                 f = ["error:" + exc_class(e)]
             facts.append([nm, f])
@@ -220,7 +306,194 @@ def impl(c):
                                         git_objects.snapshot_git_object(s, ignore_unresolved=True).hex(), len(s.branches)]
     except Exception as e:
         res["after_caller_mutation"] = "error:" + exc_class(e)
+    # the other routes / sequences; on big maps of the quick tier only the formatting routes (c["wide"] is False there)
+    for nm, fn in (("routes", _routes), ("explicit_id", _explicit_id), ("derived", _derived), ("handed_out", _handed_out),
+                   ("odd", _odd)) if c.get("wide", True) else (("routes", _routes),):
+        try:
+            res[nm] = fn(c, s, kept[0])
+        except Exception as e:
+            res[nm] = "error:" + exc_class(e)
     return res
+
+
+def _fmt(arg, *a, **kw):
+    """one formatting, canonical: ["ok", manifest] | ["unresolved", sorted pairs] | ["error", class]"""
+    from swh.model import git_objects
+    try:
+        return ["ok", git_objects.snapshot_git_object(arg, *a, **kw).hex()]
+    except ValueError as e:
+        try:
+            return ["unresolved", sorted([x.hex(), y.hex()] for x, y in e.args[1])]
+        except Exception:
+            return ["error", "malformed ValueError args"]
+    except Exception as e:
+        return ["error", exc_class(e)]
+
+
+def _state(s):
+    """everything the property says about one snapshot object, re-read now"""
+    return [s.id.hex(), s.compute_hash().hex(), _fmt(s, ignore_unresolved=True), len(s.branches), str(s.swhid()), s.unique_key().hex()]
+
+
+def _triples(d):
+    return [[n.hex(), None if b is None else b.target_type.value, None if b is None else b.target.hex()] for n, b in d.items()]
+
+
+def _routes(c, s, _d):
+    """the option left at its default / given explicitly, on the object and on the deprecated dict form; the same dict
+    given twice; the dict as a subclass; the dict without its id; the caller's dict must come back untouched"""
+    import collections
+    import warnings
+    from swh.model.model import Snapshot
+    out = {}
+    with warnings.catch_warnings(record=True):
+        # the deprecated route warns: under "always" every call goes through the warning machinery, under "ignore" none does
+        warnings.simplefilter("always" if c["ignore"] else "ignore")
+        wide = c.get("wide", True)
+        out["obj_default"] = _fmt(s)
+        td = s.to_dict()
+        if not wide:
+            out["dict_false"] = _fmt(td, ignore_unresolved=False)
+            return out
+        fresh = s.to_dict()
+        out["obj_false"] = _fmt(s, ignore_unresolved=False)
+        out["dict_default"] = _fmt(td)
+        out["dict_false"] = _fmt(td, ignore_unresolved=False)            # the same dict object again
+        out["dict_true_again"] = _fmt(td, ignore_unresolved=True)        # ... and again
+        out["dict_subclass"] = _fmt(collections.OrderedDict(td))
+        noid = {"branches": td["branches"]}
+        out["dict_noid"] = [_fmt(noid, ignore_unresolved=c["ignore"]), sorted(noid) == ["branches"]]
+        out["dict_untouched"] = td == fresh and list(td) == list(fresh) and list(td["branches"]) == list(fresh["branches"])
+        del fresh["id"]
+        fd = dict(fresh)
+        a = Snapshot.from_dict(fd)
+        b = Snapshot.from_dict(fd)
+        out["from_dict_twice"] = [a.id.hex(), b.id.hex(), fd == fresh and list(fd) == list(fresh), a == s]
+    return out
+
+
+def _explicit_id(c, s, _d):
+    """a snapshot that is GIVEN an id (its own, a constant, the id of the previous case): formatting and compute_hash read
+    the branches, never the id; check() accepts exactly the right one"""
+    from swh.model.model import Snapshot
+    out = []
+    plain = dict(s.branches.items())
+    for stale in (s.id, b"\x07" * 20, _LAST_ID[1]):
+        other = Snapshot(branches={}, id=stale)                # another object seen under that id first (self-contained replay)
+        _fmt(other, ignore_unresolved=True)
+        other.compute_hash()
+        s2 = Snapshot(branches=plain, id=stale)
+        try:
+            s2.check()
+            chk = "passes"
+        except Exception:
+            chk = "raises"
+        out.append([stale == s.id, s2.id == stale, s2.compute_hash().hex(), _fmt(s2, ignore_unresolved=True),
+                    _fmt(s2, ignore_unresolved=False), chk, str(s2.swhid()) == "swh:1:snp:" + stale.hex()])
+    _LAST_ID[1] = s.id
+    try:
+        s.check()
+        out.append("passes")
+    except Exception as e:
+        out.append("raises " + exc_class(e))
+    return out
+
+
+def _derived(c, s, d):
+    """snapshots derived from the first one: evolve(branches=<the caller's working dict, which has changed since>) and a second
+    construction from that same dict; both get the id of THEIR branch map, the first one keeps its own"""
+    from swh.model.model import Snapshot
+    tri = _triples(d)
+    e = s.evolve(branches=d)
+    n = Snapshot(branches=d)
+    e2 = s.evolve(branches=dict(s.branches.items()))
+    return {"branches": tri, "evolve": _state(e), "second": _state(n), "evolve_same": e2.id.hex(), "first": _state(s)}
+
+
+def _handed_out(c, s, _d):
+    """containers the snapshot hands out: to_dict() (mutated by the caller afterwards), ImmutableDict.copy_pop (the rest is a
+    snapshot's worth of branches, the original keeps all of them), dict()/items() views"""
+    from swh.model.model import Snapshot
+    out = {}
+    td = s.to_dict()
+    td["branches"][b"refs/heads/added-to-the-returned-dict"] = None
+    for k in list(td["branches"])[:2]:
+        if td["branches"][k]:
+            td["branches"][k]["target"] = b"changed"
+            td["branches"][k]["target_type"] = "alias"
+        else:
+            del td["branches"][k]
+    td["id"] = b"\x05" * 20
+    out["after_to_dict_mutation"] = _state(s)
+    names = [bytes.fromhex(n) for n, _, _ in c["branches"]]
+    pops = []
+    for key in names[:1] + [b"no/such/branch\xfe"]:
+        v, rest = s.branches.copy_pop(key)
+        pops.append([key.hex(), v is None, _triples(dict(rest.items())), Snapshot(branches=rest).id.hex()])
+    out["copy_pop"] = pops
+    view = dict(s.branches)
+    view[b"zz-added-to-a-view"] = None
+    view.pop(names[0], None) if names else None
+    list(s.branches.items())
+    out["after_copy_pop"] = _state(s)
+    return out
+
+
+class _B(bytes):
+    pass
+
+
+def _odd(c, s, _d):
+    """values equal to a valid one but of another type: a branch target / name given as a bytes subclass, a bytearray, a
+    memoryview, a str; a target type given as its string value or as the release enum.  The library may refuse (today it does,
+    except for names of a bytes subclass); if it accepts, the snapshot must be the one of the plain values, and stay so when
+    the caller changes its bytearray"""
+    from swh.model.model import Snapshot, SnapshotBranch, SnapshotTargetType, ReleaseTargetType
+    out = []
+    b = c["branches"]
+    if not b:
+        return out
+    k = len(b) // 2
+    for what in ("bytearray", "subclass", "memoryview", "str", "tt_str", "tt_release", "name_subclass", "name_str"):
+        d = {}
+        mut = None
+        try:
+            for i, (n, kd, t) in enumerate(b):
+                nm = bytes.fromhex(n)
+                if i == k and what == "name_subclass":
+                    nm = _B(nm)
+                if i == k and what == "name_str":
+                    nm = nm.decode("latin-1")
+                if kd is None:
+                    d[nm] = None
+                    continue
+                tg, tt = bytes.fromhex(t), SnapshotTargetType(kd)
+                if i == k:
+                    if what == "bytearray":
+                        tg = mut = bytearray(tg)
+                    elif what == "subclass":
+                        tg = _B(tg)
+                    elif what == "memoryview":
+                        tg = memoryview(tg)
+                    elif what == "str":
+                        tg = tg.decode("latin-1")
+                    elif what == "tt_str":
+                        tt = kd
+                    elif what == "tt_release" and kd != "alias":
+                        tt = ReleaseTargetType(kd)
+                d[nm] = SnapshotBranch(target=tg, target_type=tt)
+            s2 = Snapshot(branches=d)
+        except Exception as e:
+            out.append([what, "refused", exc_class(e)])
+            continue
+        f = [what, "accepted", _state(s2)]
+        if mut is not None:
+            mut += b"!"
+            if len(mut) > 1:
+                mut[0] ^= 0xff
+            f.append(_state(s2))
+        out.append(f)
+    return out
 
 
 def enc_branches(b):
@@ -286,14 +559,22 @@ def oracle(c, ires, mres):
     for nm, f in ires.get("shapes", []):
         want_last = ires["manifest"] if "manifest" in ires else ("unresolved:" + repr(sorted((a, t) for a, t in ires["unresolved"]))
                                                                  if isinstance(ires.get("unresolved"), list) else None)
-        if f[0] != ires["id"] or f[1] != ires["id"] or f[2] != len(b) or f[4] != len(b) or (want_last is not None and f[3] != want_last):
+        if nm == "mappingproxy" and len(f) == 1:
+            continue                                   # refused (a mapping that is neither a dict nor an ImmutableDict): nothing to check
+        if len(f) < 5 or f[0] != ires["id"] or f[1] != ires["id"] or f[2] != len(b) or f[4] != len(b) or (want_last is not None and f[3] != want_last):
             return ("a snapshot whose branches are given as a %s differs from the one built from a plain dict "
                     "(id, compute_hash, number of branches before/after formatting, manifest or unresolved report): %s" % (nm, str(f)[:160]))
+        if f[5:] != [ires["id"], ires["id"], len(b)]:
+            return ("a snapshot whose branches were given as a %s moved when the caller went on using the object it had given "
+                    "(id, compute_hash, number of branches re-read): %s" % (nm, str(f[5:])[:160]))
     if ires["after_caller_mutation"] != [ires["id"], ires["id"], ires["manifest_ignore"], len(b)]:
         return ("after the caller mutated the dict it had passed as `branches`, the snapshot's id / compute_hash() / manifest / "
                 "number of branches are no longer those of the snapshot that was built: %s" % str(ires["after_caller_mutation"])[:120])
     want_unres = sorted((bytes.fromhex(n), bytes.fromhex(t)) for n, k, t in b
                         if k == "alias" and (bytes.fromhex(t) not in names or bytes.fromhex(t) == bytes.fromhex(n)))
+    why = _oracle_wide(b, ires, want_unres, c["ignore"])
+    if why:
+        return why
     if "unresolved" in ires:
         if c["ignore"]:
             return "raised although asked to ignore unresolved aliases"
@@ -316,6 +597,82 @@ def oracle(c, ires, mres):
                       for n, k, t in b)
         if sorted(dec) != want:
             return "decoding the manifest does not give back the branch map"
+    return None
+
+
+def _sid(branches):
+    return hashlib.sha1(spec_manifest(branches)).hexdigest()
+
+
+def _state_of(branches):
+    """what _state() must read on a snapshot of these branches (from the property statement)"""
+    i = _sid(branches)
+    return [i, i, ["ok", spec_manifest(branches).hex()], len(branches), "swh:1:snp:" + i, i]
+
+
+def _oracle_wide(b, ires, want_unres, ignore):
+    """the same statement on the other routes / call sequences: option at its default, deprecated dict form, given ids,
+    derived snapshots, containers handed out, equal values of another type"""
+    for k in ("routes", "explicit_id", "derived", "handed_out", "odd"):
+        if isinstance(ires.get(k), str):
+            return "the step '%s' crashed on a valid snapshot: %s" % (k, ires[k])
+    spec = spec_manifest(b).hex()
+    exp_true = ["ok", spec]
+    exp_false = ["unresolved", [[n.hex(), t.hex()] for n, t in want_unres]] if want_unres else exp_true
+    first = _state_of(b)
+    r = ires.get("routes")
+    if r is not None:
+        want = {"obj_default": exp_false, "obj_false": exp_false, "dict_default": exp_false, "dict_false": exp_false,
+                "dict_true_again": exp_true, "dict_untouched": True, "dict_subclass": exp_false,
+                "dict_noid": [exp_true if ignore else exp_false, True], "from_dict_twice": [first[0], first[0], True, True]}
+        text = {"obj_default": "snapshot_git_object(snapshot) with ignore_unresolved left at its default does not report exactly the unresolved aliases / the documented manifest",
+                "obj_false": "snapshot_git_object(snapshot, ignore_unresolved=False) does not report exactly the unresolved aliases / the documented manifest",
+                "dict_default": "snapshot_git_object(<dict>) with ignore_unresolved left at its default does not behave like the object form",
+                "dict_false": "snapshot_git_object(<dict>, ignore_unresolved=False) does not behave like the object form",
+                "dict_true_again": "snapshot_git_object(<dict>, ignore_unresolved=True) on a dict that was already formatted differs",
+                "dict_untouched": "snapshot_git_object(<dict>) changed the caller's dict",
+                "dict_subclass": "snapshot_git_object(<OrderedDict of the dict form>) differs",
+                "dict_noid": "snapshot_git_object(<dict without an 'id'>, ignore_unresolved as in the case) differs [result, dict keys untouched]",
+                "from_dict_twice": "Snapshot.from_dict used twice on one dict [id, id of the second, dict untouched, equal to the constructed snapshot]"}
+        for k, w in want.items():
+            if k in r and r[k] != w:
+                return "%s: %s" % (text[k], str(r.get(k))[:160])
+    e = ires.get("explicit_id")
+    if e is not None:
+        for own, kept_id, ch, m_true, m_false, chk, sw in e[:-1]:
+            if not kept_id or not sw:
+                return "a snapshot built with a given id does not carry it (id, swhid)"
+            if ch != first[0] or m_true != exp_true or m_false != exp_false:
+                return ("a snapshot built with a given id (%s) is not formatted / re-hashed from its branches: compute_hash %s, manifest %s"
+                        % ("its own" if own else "not its own", ch, str(m_true)[:80]))
+            if chk != ("passes" if own else "raises"):
+                return "check() %s on a snapshot whose given id is %s the SHA-1 of its manifest" % (chk, "" if own else "not")
+        if e[-1] != "passes":
+            return "check() on a freshly built snapshot: " + e[-1]
+    d = ires.get("derived")
+    if d is not None:
+        st = _state_of(d["branches"])
+        if d["evolve"] != st:
+            return "evolve(branches=...) does not give the snapshot of the new branch map: " + str(d["evolve"])[:160]
+        if d["second"] != st:
+            return "a second snapshot built from the caller's working dict is not the snapshot of that dict: " + str(d["second"])[:160]
+        if d["evolve_same"] != first[0] or d["first"] != first:
+            return "deriving another snapshot moved the first one (or evolve with the same branches changed the id): " + str(d["first"])[:160]
+    h = ires.get("handed_out")
+    if h is not None:
+        if h["after_to_dict_mutation"] != first:
+            return "the caller changed the dict returned by to_dict() and the snapshot moved: " + str(h["after_to_dict_mutation"])[:160]
+        for key, was_none, rest, rid in h["copy_pop"]:
+            want_rest = [x for x in b if x[0] != key]
+            gone = [x for x in b if x[0] == key]
+            if sorted(map(repr, rest)) != sorted(map(repr, want_rest)) or rid != _sid(want_rest) or was_none != (not gone or gone[0][1] is None):
+                return "branches.copy_pop(%s) is not the branch map without that branch (or its snapshot has another id)" % key
+        if h["after_copy_pop"] != first:
+            return "copy_pop / dict() views changed the snapshot they were taken from: " + str(h["after_copy_pop"])[:160]
+    for f in ires.get("odd") or []:
+        if f[1] == "accepted" and any(x != first for x in f[2:]):
+            return ("a value equal to a valid one but of another type (%s) was accepted and the snapshot is not the one of the "
+                    "plain values%s: %s" % (f[0], " after the caller changed its bytearray" if len(f) > 3 and f[2] == first else "", str(f[2:])[:160]))
     return None
 
 
